@@ -80,6 +80,15 @@ func (ex *Exec) arbitraryOf(t types.Type, tag string) Val {
 	return ex.zero(t)
 }
 
+// keccakTerms: real Keccak-256 for concrete input, an injective token otherwise.
+func (ex *Exec) keccakTerms(in []*Term) []*Term {
+	if cs, ok := concreteBytes(in); ok {
+		sum := keccak256([]byte(cs))
+		return ex.constBytes(string(sum[:]))
+	}
+	return ex.uninterpretedHash("keccak", in, 32)
+}
+
 func init() {
 	reg("github.com/ethereum/go-ethereum/crypto.Keccak256Hash", func(ex *Exec, a []Val) Val {
 		var in []*Term
@@ -90,7 +99,7 @@ func init() {
 			}
 			in = append(in, ex.bytesOf(s)...)
 		}
-		h := ex.uninterpretedHash("keccak", in, 32)
+		h := ex.keccakTerms(in)
 		e := make([]Val, 32)
 		for i, t := range h {
 			e[i] = t
@@ -102,7 +111,7 @@ func init() {
 		for _, s := range ex.sliceElems(a[0].(SliceV)) {
 			in = append(in, ex.bytesOf(s)...)
 		}
-		return ex.mkBytes(ex.uninterpretedHash("keccak", in, 32))
+		return ex.mkBytes(ex.keccakTerms(in))
 	})
 	sha := func(ex *Exec, in []*Term) []*Term {
 		if cs, ok := concreteBytes(in); ok {
